@@ -125,6 +125,30 @@ func c03Sequential(r *core.Run) {
 			}
 		}
 		c03Watchers()
+		// directed floor: an invoice that lives one second is paid in time; nobody tells the mint (no
+		// notification, nobody polls) until the invoice and the quote have lapsed. The payment was made:
+		// the next poll says PAID and the quote is mintable, once
+		c03PaidThenLapsed := func() {
+			if backend != "" || world.AutoDeliver {
+				return
+			}
+			world.InvoiceExpirySec = 1
+			q := s.NewMintQuote(33, false)
+			world.InvoiceExpirySec = 0
+			if q == nil {
+				return
+			}
+			s.PayMintQuote(q)
+			time.Sleep(2200 * time.Millisecond) // whole seconds are compared: two have passed for sure
+			st, err := env.MintQuoteState(q.Id)
+			r.Count("quotes_paid_in_time_and_polled_after_expiry", 1)
+			if err != nil || st.State.String() != "PAID" {
+				r.Violate("seq:paid-then-lapsed-quote-not-PAID", fmt.Sprintf("a quote whose one-second invoice was paid in time is reported %v (%v) by the first poll after the expiry", st.State, err), sig, s.Tail(6))
+			}
+			s.Mint(q, "exact")
+			s.Mint(q, "exact")
+		}
+		c03PaidThenLapsed()
 		for i := 0; i < nops && r.Violations() < 10; i++ {
 			if i == nops/2 {
 				c03Watchers() // again with a longer list of invoices behind the node
